@@ -114,6 +114,8 @@ def gen_plan(seed, tier="quick"):
     if r.random() < 0.3:
         reopen = r.choice([0, 0, 1, frame - 1, frame, frame + 1, 7 * frame + 2])
     plan.update({"frames": frames, "bytes": total, "claimed": claimed, "meta": meta, "bursts": bursts,
+                 "meta_fields": r.choice(["complete"] * 6 + ["size_only", "time_only"]),     # only one of the two size fields present
+                 "use_with": r.random() < 0.2,                                               # reader used as a context manager
                  "two_phase": two_phase, "pre_open": pre_open, "reopen": reopen,
                  "reopen_same": r.random() < 0.4})      # close() + open() on the same object instead of a new Reader
     return plan
@@ -166,7 +168,7 @@ def _run(plan, root):
     stem = "rec_g0_t0.imec0"
     binf = root / f"{stem}.ap.bin"
     metaf = root / f"{stem}.ap.meta"
-    size_fields = "none" if plan["meta"] == "none" else "complete"
+    size_fields = "none" if plan["meta"] == "none" else plan.get("meta_fields", "complete")
     metaf.write_text(world.make_meta_text(plan["fixture"], nap, plan["claimed"], size_fields=size_fields))
     log = []
     stats = {"faults": {}, "probes": {}, "outcomes": {}, "distinct": [], "steps": 0, "sim_time": 0.0}
@@ -246,6 +248,7 @@ def _run(plan, root):
             if two_phase:
                 sr = cls(target, open=False, ignore_warnings=plan["ignore_warnings"], sort=plan["sort"])
                 sys.settrace(None)
+                _ = sr.shape, sr.ns, sr.rl        # queried before open(): must not raise
                 for nb in plan.get("pre_open", []):      # the writer goes on between construction and open()
                     if wf is not None:
                         wf.write(stream[state["size"]: state["size"] + nb])
@@ -255,6 +258,10 @@ def _run(plan, root):
                 B0 = state["size"]
                 sys.settrace(global_trace)
                 sr.open()
+            elif plan.get("use_with"):
+                with cls(target, open=False, ignore_warnings=plan["ignore_warnings"], sort=plan["sort"]) as sr_:
+                    sr = sr_
+                sr.open()        # leaving the block closed it; the oracle reads through a fresh open()
             else:
                 sr = cls(target, ignore_warnings=plan["ignore_warnings"], sort=plan["sort"])
         finally:
@@ -271,7 +278,8 @@ def _run(plan, root):
         probe("file_grew_between_traced_lines")
     stats["sim_time"] = (B1 // frame) / fs
 
-    sigbase = f"{plan['reader']}:{plan['form']}:{plan['meta']}" + (":two-phase" if two_phase else "")
+    mf = plan.get("meta_fields", "complete")
+    sigbase = f"{plan['reader']}:{plan['form']}:{plan['meta']}" + (f"({mf})" if mf != "complete" and plan["meta"] != "none" else "") + (":two-phase" if two_phase else "")
     viol = None
     try:
         if err is not None:
